@@ -256,6 +256,8 @@ type C16Case struct {
 	NKeys  int     `json:"nkeys"`
 	Prefix string  `json:"prefix"`
 	Steps  []HStep `json:"steps"`
+	// NoSteer: do not steer away from known findings (witness files only)
+	NoSteer bool `json:"no_steer,omitempty"`
 }
 
 var wideCols = []string{"a", "b", "c"}
@@ -341,13 +343,14 @@ func runC16(c C16Case, o *Obs) error {
 	conn := newConn()
 	defer conn.Close()
 	tn := uniqName("t")
-	spec := TableSpec{Name: tn, Columns: "k primary key, a, b, c", Bucket: bucket, Client: "w", Prefix: c.Prefix, EPN: c.EPN, Cache: k4Cache(c.EPN, c.NKeys, c.Cache, o)}
+	spec := TableSpec{Name: tn, Columns: "k primary key, a, b, c", Bucket: bucket, Client: "w", Prefix: c.Prefix, EPN: c.EPN, Cache: c16Cache(c, o)}
 	if err := conn.Create(spec); err != nil {
 		return fmt.Errorf("create: %v", err)
 	}
 	prefix := tablePrefix(c.Prefix)
 	keys := mixedKeys(c.NKeys)
 	view := MSet{}
+	dirtyHandle := false // a statement or commit failed on this handle since it was (re)opened
 
 	verify := func(where string) error {
 		if rw := store.Rewrites(); len(rw) > 0 {
@@ -457,6 +460,17 @@ func runC16(c C16Case, o *Obs) error {
 		verBefore, _ := conn.Version(tn)
 		switch step.Op {
 		case "txn":
+			if step.FailAt > 0 && dirtyHandle && c.EPN <= c.NKeys && !c.NoSteer {
+				// K4: once the handle has been through a rollback (a refused statement is
+				// enough) its next BEGIN snapshot shares tree nodes that the dependency
+				// mutates in place; a second rollback would then leave rows behind. Take a
+				// fresh handle before the transaction whose commit is going to fail.
+				o.Exclude("K4-refresh-before-second-rollback-on-multi-node-tree")
+				if err := conn.Refresh(tn); err != nil {
+					return fmt.Errorf("%s: refresh: %v", where, err)
+				}
+				dirtyHandle = false
+			}
 			if !step.Auto {
 				if err := conn.Exec("begin"); err != nil {
 					return fmt.Errorf("%s: begin: %v", where, err)
@@ -465,6 +479,9 @@ func runC16(c C16Case, o *Obs) error {
 			failed := false
 			preTxn := view.Clone()
 			for _, s := range step.Stmts {
+				if !s.wellFormed() {
+					continue // minimiser artefact
+				}
 				outcome, added, _ := view.Exec(s, wideCols)
 				if outcome != "ok" && len(s.Keys) > 1 {
 					// a multi-row INSERT that fails after its first row leaves rows behind
@@ -484,6 +501,7 @@ func runC16(c C16Case, o *Obs) error {
 					return fmt.Errorf("%s: %s: %v", where, s, err)
 				} else if cls != "ok" {
 					failed = true
+					dirtyHandle = true
 					o.Class("stmt-constraint")
 				}
 				if cls := errClass(err); cls != outcome {
@@ -508,6 +526,7 @@ func runC16(c C16Case, o *Obs) error {
 					// the commit was not acknowledged: nothing of it may be visible or stored,
 					// and everything committed afterwards must again be complete on its own
 					o.Class("commit-failed-by-storage-fault")
+					dirtyHandle = true
 					view = preTxn
 					if e := conn.Exec("rollback"); e != nil && !strings.Contains(e.Error(), "no transaction") {
 						return fmt.Errorf("%s: rollback after failed commit: %v", where, e)
@@ -555,6 +574,7 @@ func runC16(c C16Case, o *Obs) error {
 			if err := conn.Refresh(tn); err != nil {
 				return fmt.Errorf("%s: %v", where, err)
 			}
+			dirtyHandle = false
 			if err := noPuts("refreshing a quiescent table", from); err != nil {
 				return err
 			}
@@ -569,6 +589,7 @@ func runC16(c C16Case, o *Obs) error {
 			if err := conn.Create(spec); err != nil {
 				return fmt.Errorf("%s: re-create: %v", where, err)
 			}
+			dirtyHandle = false
 			if err := noPuts("re-opening a quiescent table", from); err != nil {
 				return err
 			}
@@ -602,4 +623,11 @@ func TestC16_History(t *testing.T) {
 	st := newStats(t, "C16", "TestC16_History", "single-writer histories (entries_per_node 2..4096, cache 0/4/1000, 6-48 keys of all classes, transactions of 1-4 statements, no-op statements, refresh, re-open); after every commit: harness walk of the version object and all nodes, fresh read-only connection compared row by row and entry by entry (timestamps, offsets, previous-version names) with the writer's tree, point lookups; non-trivial = a commit whose tree has height>=1 and an interior node with both absent and present child links")
 	st.Assume = append(st.Assume, "multi-row INSERTs that the model predicts to fail are not issued (known findings K3/K4, decided under C05/C06), counted under excluded")
 	checkRapid(t, st, genC16Case, runC16)
+}
+
+func c16Cache(c C16Case, o *Obs) int {
+	if c.NoSteer {
+		return c.Cache
+	}
+	return k4Cache(c.EPN, c.NKeys, c.Cache, o)
 }
